@@ -467,7 +467,19 @@ fn check_balance<'ctx>(
     if balance.is_zero() {
         return Ok(());
     }
-    if let Some((a1, a2)) = balance.maybe_pair() {
+    // Two remaining commodities mean an implied exchange only when
+    // the both are non-zero and have the opposite sign (= positive rate).
+    let pair = match balance.maybe_pair() {
+        Some((a1, a2))
+            if !a1.value.is_zero()
+                && !a2.value.is_zero()
+                && a1.value.is_sign_positive() != a2.value.is_sign_positive() =>
+        {
+            Some((a1, a2))
+        }
+        _ => None,
+    };
+    if let Some((a1, a2)) = pair {
         // fill in converted amount.
         for p in postings.iter_mut() {
             let amount: Result<SingleAmount<'_>, _> = (&p.amount).try_into();
